@@ -95,7 +95,7 @@ theorem flagInv_step (s s' : SSys) (l : SLabel) (h : FlagInv s) (hn : snext s l 
     split at hn
     · simp at hn
     · split at hn
-      · simp at hn; subst hn; exact ⟨hf, hw⟩
+      · simp at hn; obtain ⟨_, hn⟩ := hn; subst hn; exact ⟨hf, hw⟩
       · simp at hn
   | caller j =>
     simp only [snext] at hn
